@@ -268,7 +268,7 @@ func initDateTime() {
 		"date",
 		func(_ *Thread, args []value.Value) (value.Value, value.Value) {
 			self := args[0].AsReference().(*value.DateTime)
-			return self.Date().ToValue(), value.Undefined
+			return value.ToValueErr(self.DateErr())
 		},
 	)
 	Alias(c, "to_date", "date")
